@@ -10,6 +10,7 @@ import (
 	"math"
 	"os"
 	"regexp"
+	"runtime"
 	"strconv"
 	"strings"
 	"syscall"
@@ -49,6 +50,7 @@ var (
 
 func vpSetup(vec []vpReplayVal, thorough bool, enable []string) {
 	vpVec, vpVecPos, vpTierThorough, vpAssertLog = vec, 0, thorough, nil
+	vpGoroutineBase = runtime.NumGoroutine()
 	vpNativeOverride = map[string]bool{}
 	for _, k := range enable {
 		vpNativeOverride[k] = true
@@ -307,9 +309,22 @@ func vpForbidden(what string) {}
 // reports a very long time, 2 time.Since reports zero. No effect natively.
 func vpSetClock(mode int) {}
 
-// vpLiveGoroutines: goroutines started by the harness that have not finished (executor only;
-// natively unknown: 0).
-func vpLiveGoroutines() int { return 0 }
+// vpLiveGoroutines: goroutines started during the harness that have not finished. Exact under the
+// executor; natively the process's goroutine count is compared with the count at harness start,
+// after giving finished goroutines up to half a second to be reaped.
+func vpLiveGoroutines() int {
+	n := 0
+	for i := 0; i < 50; i++ {
+		n = runtime.NumGoroutine() - vpGoroutineBase
+		if n <= 0 {
+			return 0
+		}
+		time.Sleep(10 * time.Millisecond)
+	}
+	return n
+}
+
+var vpGoroutineBase int
 
 // vpMaxAllocSize: the largest allocation made from a symbolic (file-borne) size on this path.
 // Natively unknown: 0.
